@@ -18,6 +18,7 @@ def run(run, model):
     run.do(rec.truth_protocol, model)
     run.do(rec.none_is_a_value, model)
     run.do(rec.unknown_stops, model)
+    run.do(rec.speculative_visit, model)
     run.do(msg.no_nondeterminism, model, "C07.no-history")
     run.do(rec.comprehension_env, model, "C07.comprehension-env")
     run.do(c09.dispatch_table, model, "C07.default-error")
@@ -39,3 +40,4 @@ def run(run, model):
     run.minimum("C07.truth-protocol", 1)
     run.minimum("C07.none-is-a-value", 1)
     run.minimum("C07.unknown-stops", 2)
+    run.minimum("C07.speculative-visit", 4)
